@@ -635,6 +635,8 @@ program_t *load_binary (const char *name) {
           ALLOC_BUF (len + 1);
           if (fread (buf, sizeof (char), len, f) == len)
             buf[len] = '\0';
+          else
+            buf[0] = '\0';	/* cut short: what the buffer holds is the beginning of a name, or an older one */
         }
       if (!buf[0])
         {
